@@ -10,17 +10,24 @@ import (
 	"math"
 	"sort"
 	"strings"
+	"time"
 
 	pb "github.com/libp2p/go-libp2p-pubsub/pb"
 )
 
 type vfC06Mon struct {
-	seen map[string]bool // message labels the node has already accepted or seen
+	seen    map[string]bool          // message labels the node has already accepted or seen
+	lastPub map[string]time.Duration // topic -> time of the last publication to it while it was not joined
 }
 
 func vfC06Canon(in *vfGWInst) string {
 	m := in.mon.(*vfC06Mon)
-	return strings.Join(vfKeys(m.seen), ",")
+	var l []string
+	for t, at := range m.lastPub {
+		l = append(l, fmt.Sprintf("%s:-%d", t, (in.last.Now-at)/time.Millisecond))
+	}
+	sort.Strings(l)
+	return strings.Join(vfKeys(m.seen), ",") + "|lastpub=" + strings.Join(l, ",")
 }
 
 // recipients of message label m during this step, with the bytes each one got
@@ -49,9 +56,26 @@ func vfC06Oracle(in *vfGWInst, evFull string, pre, post *vfSnap) {
 	mon := in.mon.(*vfC06Mon)
 	ev, _ := vfSplitChoice(evFull)
 	f := strings.Split(ev, ":")
+	// fanout state is kept for as long as the topic keeps being published to (and members stay eligible)
+	if g.n.gs != nil && post.Ticks > pre.Ticks {
+		ttl := g.n.gs.params.FanoutTTL
+		for t, fan := range pre.Fanout {
+			at, published := mon.lastPub[t]
+			if _, joined := post.Mesh[t]; joined || !published || post.Now-at >= ttl {
+				continue
+			}
+			for p := range fan {
+				eligible := post.Topics[t][p] && g.conn[p] && (!g.cfg.Scoring || post.Score[p] >= g.n.gs.publishThreshold)
+				if eligible && !post.Fanout[t][p] {
+					in.bad("c06:fanout-expired-while-publishing", "fanout member %s of %s was dropped by a heartbeat although the topic was published to %v ago (FanoutTTL %v) and the peer is still eligible", p, t, post.Now-at, ttl)
+				}
+			}
+			in.count("fanout_kept_across_heartbeat_checks")
+		}
+	}
 	// anything that crosses the wire in a non-publish step must not be a payload message,
 	// except replies to IWANT (not in this alphabet) -- judged by C17
-	if f[0] != "pub" && f[0] != "lpub" {
+	if f[0] != "pub" && f[0] != "lpub" && f[0] != "lpubbatch" {
 		return
 	}
 	var label, topic, source, author string
@@ -65,6 +89,9 @@ func vfC06Oracle(in *vfGWInst, evFull string, pre, post *vfSnap) {
 		source, author = "N", "N"
 		local = true
 		localOnly = len(f) > 3 && f[3] == "local"
+		if _, joined := pre.Mesh[topic]; !joined && g.n.gs != nil && !localOnly {
+			mon.lastPub[topic] = pre.Now
+		}
 	}
 	rcpt := vfMsgRecipients(g, label)
 	params := GossipSubParams{}
@@ -316,7 +343,10 @@ func vfC06Scenarios(thorough bool) []*vfGWScenario {
 	mk("gs-joined", "gossip", peers, false, append(connSub(peers, "abcde"), "join:t"),
 		append([]string{"graft:a:t", "graft:e:t", "prune:b:t", "idw:a:m1", "idw:b:m3", "score:c:-3", "score:c:-2", "score:a:-3", "unsub:b:t", "sub:b:t", "leave:t", "hb"}, pubs...))
 	mk("gs-fanout", "gossip", peers, false, connSub(peers, "abce"),
-		append([]string{"sub:d:t", "score:a:-3", "score:a:-2", "score:b:-3", "unsub:a:t", "sub:a:t", "hb", "adv:3500", "join:t", "relay:t", "idw:a:m1"}, pubs...))
+		append([]string{"sub:d:t", "score:a:-3", "score:a:-2", "score:b:-3", "unsub:a:t", "sub:a:t", "hb", "adv:3500", "adv:2000", "join:t", "relay:t", "idw:a:m1", "lpub:t:p5"}, pubs...))
+	// batch publication (AddToBatch + PublishBatch), joined and through the fanout
+	mk("gs-batch", "gossip", peers, false, connSub(peers, "abcde"),
+		[]string{"join:t", "leave:t", "graft:a:t", "prune:b:t", "score:c:-3", "idw:a:m1", "hb", "lpubbatch:t:p3", "lpubbatch:t:p4:local", "lpubbatch:t:p6", "lpub:t:p1"})
 	mk("gs-floodpub", "gossip", peers, true, connSub(peers, "abcde"),
 		append([]string{"join:t", "leave:t", "score:a:-3", "score:b:-2", "score:c:-3", "score:d:-5", "graft:b:t", "hb"}, pubs...))
 	fpeers := []vfPeerCfg{{Name: "a", Proto: "fs", IP: "10.0.0.1"}, {Name: "b", Proto: "fs", IP: "10.0.0.2"}, {Name: "c", Proto: "fs", IP: "10.0.0.3"}}
@@ -330,7 +360,7 @@ func vfC06Scenarios(thorough bool) []*vfGWScenario {
 
 func vfC06Mk(x *vfExec, sc *vfGWScenario) vfInstance {
 	in := newVfGWInst(x, sc, nil)
-	in.mon = &vfC06Mon{seen: map[string]bool{}}
+	in.mon = &vfC06Mon{seen: map[string]bool{}, lastPub: map[string]time.Duration{}}
 	in.monCanon = vfC06Canon
 	in.oracle = vfC06Oracle
 	return in
